@@ -30,6 +30,13 @@ Ops(shape) ==
     [] shape = "carr" -> <<"get", "aget", "user", "aput">> \o w \o <<"put">>
     \* Event.Object / EmbedObject with a user marshaler: fields are appended in place, no extra pooled object
     [] shape = "obj"  -> <<"get", "user">> \o w \o <<"put">>
+    \* temporaries of the derivation API, used by a goroutine that derives a child logger and logs through it:
+    \* Context.Object borrows a pooled event for the user's marshaler and returns it before the child logs
+    [] shape = "ctxobj" -> <<"get", "user", "put", "get">> \o w \o <<"put">>
+    \* Context.Array with a user LogArrayMarshaler borrows a pooled Array
+    [] shape = "ctxarr" -> <<"aget", "user", "aput", "get">> \o w \o <<"put">>
+    \* Fields() with a LogObjectMarshaler value borrows a second pooled event while the first is being built
+    [] shape = "fobj" -> <<"get", "get", "user", "put">> \o w \o <<"put">>
     \* the oversized buffer is dropped (no Put, hence no gate) in the step that leaves the writer / the mutex
     [] shape = "big"  -> <<"get">> \o (IF Sync THEN <<"lock", "write", "unlockdrop">> ELSE <<"writedrop">>)
 
